@@ -2280,7 +2280,13 @@ impl XmlElement {
         });
         let element_id = Some(element.borrow().id());
 
-        for attribute in value.attributes.as_slice() {
+        for (i, attribute) in value.attributes.iter().enumerate() {
+            // Well-formedness constraint: Unique Att Spec
+            if value.attributes[..i].iter().any(|v| v.name == attribute.name) {
+                let (local_name, _) = attribute_name(&attribute.name);
+                return Err(error::Error::InvalidData(local_name));
+            }
+
             let attr = XmlAttribute::node(attribute, element_id, context)?;
             element.borrow_mut().push_attribute(attr);
         }
